@@ -88,3 +88,15 @@ package method_evaluator
 //@ func (*ti/eval/method_evaluator.kernelPrintStrategy).evaluate
 //@   safe idx,slice
 //@   inline 2 1
+
+//@ # ---- C02 layer 3 in method_evaluator: the parser is reached through the evaluator object ----
+//@ func (*ti/eval/method_evaluator.objectAttrReaderStrategy).evaluate
+//@   requires m != nil && wfP(m.parser)
+//@   eosexit
+//@   inline 14 2
+
+//@ func (*ti/eval/method_evaluator.objectAttrAccessorStrategy).evaluate
+//@   requires m != nil && wfP(m.parser)
+//@   eosexit
+//@   inline 14 2
+//@   witness eos:loop0#1 "class Hoge\n  attr_accessor"
